@@ -451,6 +451,11 @@ where
             && change.orchard() <= 1
             && change.sapling() == 0
             && change.transparent() == 0
+            // An ephemeral transparent output is recorded with the change when the finished
+            // shape is computed below, but is not part of `change` while the fee is being solved
+            // for. It is a transparent output no migration transfer carries, so the fee must be
+            // priced for the padded bundle that shape records.
+            && !ephemeral_balance.is_some_and(|b| b.is_output())
             && match ironwood.outputs() {
                 [output] => constants.is_canonical_denomination(output.value()),
                 _ => false,
